@@ -1,6 +1,7 @@
 CONSTANTS Goroutines = {g1, g2, g3, g4}
  Keys = {k1, k2}
  MaxCalls = 2
+ SeedOutputs = FALSE
 SPECIFICATION CSpec
 INVARIANT C20_ReturnsF C20_ComputedOnce C20_NoLostWaiter
 PROPERTY C20_AllReturn
